@@ -1,11 +1,14 @@
 """
 Planted-mutation self-test of the C09 quick check.  Usage (from the verif worktree):
     VERIF_REPO=<repo worktree> /venv/bin/python notes/C09_mutations.py
-    VERIF_REPO=<repo worktree> /venv/bin/python notes/C09_mutations.py [--oracle] [name fragment ...]
+    VERIF_REPO=<repo worktree> /venv/bin/python notes/C09_mutations.py [--oracle] [--cli] [name fragment ...]
 Each mutation is applied to the repo worktree (uncommitted), `./check C09 --tier quick` must exit 1 with a
 VIOLATION line, and the worktree is restored with `git checkout -- .` straight afterwards.  With --oracle the
 model / implementation comparison is switched off (VERIF_C09_ORACLE_ONLY): the oracle on the implementation alone
-must find the violation.
+must find the violation.  With --cli only the serialised-path part of the check runs (VERIF_C09_ONLY=cli, about 15 s per
+mutation instead of 2 min; what it reports the whole check reports too) - meant for the T mutations, siblings of seeded/C09-5
+in the serialisation code and the command line glue.  A mutation whose `file` is a list of (file, old, new) triples edits
+several files.  Names starting with "CONTROL" are behaviour-preserving under the property and must NOT be reported.
 """
 import os
 import subprocess
@@ -109,6 +112,43 @@ MUTATIONS = [
      "                            decoded_node.factor, decoded_descriptors, decoded_values,\n"
      "                        )\n"
      "                        n['factor'].pop('attributes', None)\n", 0),
+    # -- siblings of seeded/C09-5: the serialised forms the command line writes and reads, and the option handling glue
+    ('T1 EntityEncoder: bytes shown as ASCII, anything else replaced (errors=replace)', 'pybufrkit/utils.py',
+     "return o.decode(encoding='latin-1')", "return o.decode('ascii', errors='replace')", 0),
+    ('T2 JSON written with ensure_ascii=False (text depends on the encoding of the pipe / file)', 'pybufrkit/utils.py',
+     "{'cls': EntityEncoder}", "{'cls': EntityEncoder, 'ensure_ascii': False}", 0),
+    ('T2b ensure_ascii=False and encode reads its input as ASCII with errors=replace',
+     [('pybufrkit/utils.py', "{'cls': EntityEncoder}", "{'cls': EntityEncoder, 'ensure_ascii': False}"),
+      ('pybufrkit/commands.py', "        with open(ns.filename) as ins:\n            s = ins.read()\n    else:  # read from stdin",
+       "        with open(ns.filename, encoding='ascii', errors='replace') as ins:\n            s = ins.read()\n    else:  # read from stdin")], None, None, 0),
+    ('T3 write_bytes: text from JSON encoded as UTF-8', 'pybufrkit/bitops.py', "value = value.encode('latin-1')", "value = value.encode('utf-8')", 0),
+    ('CONTROL T4 JSON written with sort_keys=True (key order of the nested JSON objects; the readers go by key)', 'pybufrkit/utils.py',
+     "{'cls': EntityEncoder}", "{'cls': EntityEncoder, 'sort_keys': True}", 0),
+    ('T5 encode --preamble written after the message', 'pybufrkit/commands.py',
+     "            if ns.preamble:\n                outs.write(str.encode(ns.preamble, encoding='utf8'))\n            outs.write(bufr_message.serialized_bytes)",
+     "            outs.write(bufr_message.serialized_bytes)\n            if ns.preamble:\n                outs.write(str.encode(ns.preamble, encoding='utf8'))", 0),
+    ('T6 encode --append ignored (file always replaced)', 'pybufrkit/commands.py', "fmode = 'ab' if ns.append else 'wb'", "fmode = 'wb'", 0),
+    ('T7 encode from stdin reads the first line only', 'pybufrkit/commands.py',
+     "    else:  # read from stdin, this is useful for piping\n        s = sys.stdin.read()", "    else:  # read from stdin, this is useful for piping\n        s = sys.stdin.readline()", 0),
+    ('T8 decode: only the first of several files', 'pybufrkit/commands.py',
+     "    for filename in ns.filenames:\n        if filename != '-':", "    for filename in ns.filenames[:1]:\n        if filename != '-':", 0),
+    ('T9 split: parts numbered from 1', 'pybufrkit/commands.py', "new_filename = '{}.{}'.format(filename, idx)", "new_filename = '{}.{}'.format(filename, idx + 1)", 0),
+    ('T10 query -j: nested renderer without -n, flat renderer with it', 'pybufrkit/commands.py', "                if ns.nested:\n                    print(json.dumps(NestedJsonRenderer()",
+     "                if not ns.nested:\n                    print(json.dumps(NestedJsonRenderer()", 0),
+    ('T11 EntityEncoder: trailing white space of character values dropped (the encoder pads again)', 'pybufrkit/utils.py',
+     "return o.decode(encoding='latin-1')", "return o.decode(encoding='latin-1').rstrip()", 0),
+    ('T12 EntityEncoder: UTF-8 when valid, else latin-1 (= seeded/C09-5)', 'pybufrkit/utils.py',
+     "            return o.decode(encoding='latin-1')",
+     "            try:\n                return o.decode(encoding='utf-8')\n            except UnicodeDecodeError:\n                return o.decode(encoding='latin-1')", 0),
+    ('T13 EntityEncoder: character values cut at the first NUL', 'pybufrkit/utils.py',
+     "return o.decode(encoding='latin-1')", "return o.decode(encoding='latin-1').split('\\0')[0]", 0),
+    ('T14 decode -j -a: the message is not wired again when it already is (flag kept on the renderer side): nested JSON of an unwired message',
+     'pybufrkit/commands.py', "        if ns.attributed:\n            m.wire()\n            if ns.json:", "        if ns.attributed:\n            if not ns.json:\n                m.wire()\n            if ns.json:", 0),
+    ('T15 subset: indices taken as 1-based', 'pybufrkit/commands.py', "subset_indices = [int(x) for x in ns.subset_indices.split(',')]",
+     "subset_indices = [int(x) - 1 for x in ns.subset_indices.split(',')]", 0),
+    ('T16 encode: text input (no -j) read with the nested converter when -a is absent', 'pybufrkit/commands.py',
+     "            if ns.attributed:\n                data = nested_text_to_flat_json(s)\n            else:\n                data = flat_text_to_flat_json(s)",
+     "            if not ns.attributed:\n                data = nested_text_to_flat_json(s)\n            else:\n                data = flat_text_to_flat_json(s)", 0),
 ]
 
 
@@ -127,16 +167,20 @@ def main():
     if '--oracle' in sys.argv:
         # only the property oracle on the implementation may report (no model / implementation comparison)
         env['VERIF_C09_ORACLE_ONLY'] = '1'
+    if '--cli' in sys.argv:
+        env['VERIF_C09_ONLY'] = 'cli'
     results = []
     for name, fn, old, new, n in MUTATIONS:
         if only and not any(o in name for o in only):
             continue
-        path = os.path.join(REPO, fn)
-        with open(path) as f:
-            src = f.read()
+        edits = fn if isinstance(fn, list) else [(fn, old, new)]
         try:
-            with open(path, 'w') as f:
-                f.write(replace_nth(src, old, new, n))
+            for fn1, old1, new1 in edits:
+                path = os.path.join(REPO, fn1)
+                with open(path) as f:
+                    src = f.read()
+                with open(path, 'w') as f:
+                    f.write(replace_nth(src, old1, new1, n))
             p = subprocess.run(['./check', 'C09', '--tier', 'quick'], cwd=HERE, env=env, stdout=subprocess.PIPE, stderr=subprocess.STDOUT, text=True)
             lines = [l for l in p.stdout.split('\n') if l.startswith('VIOLATION')]
             first = ''
@@ -146,12 +190,17 @@ def main():
                     first = out[i + 1].strip()[:140]
                     break
             caught = p.returncode == 1 and bool(lines)
+            if name.startswith('CONTROL'):
+                quiet = p.returncode == 0 and not lines
+                results.append((name, quiet, p.returncode, len(lines), first))
+                print('%-75s %s (exit %d, %d VIOLATION lines) %s' % (name, 'QUIET (as it must be)' if quiet else 'FALSE ALARM', p.returncode, len(lines), first))
+                continue
             results.append((name, caught, p.returncode, len(lines), first))
             print('%-75s %s (exit %d, %d VIOLATION lines) %s' % (name, 'CAUGHT' if caught else 'MISSED', p.returncode, len(lines), first))
             sys.stdout.flush()
         finally:
             subprocess.run(['git', '-C', REPO, 'checkout', '--', '.'], check=True)
-    print('%d/%d caught' % (sum(1 for r in results if r[1]), len(results)))
+    print('%d/%d as expected (caught, or quiet for a CONTROL)' % (sum(1 for r in results if r[1]), len(results)))
 
 
 if __name__ == '__main__':
